@@ -819,16 +819,24 @@ def run(ctx):
             if any(isinstance(v, str) for v in vws):
                 _, _, ht0 = build(case)
                 vws = [ht0.vJ - float(v[3:]) if isinstance(v, str) else v for v in vws]
-            compare(ctx, dict(case), stats, rng, 6, with_lte=d.get("lte", False),
-                    with_kappa="kappa_vws" in d, vws=vws, kappa_vws=d.get("kappa_vws"),
-                    directed=True)
+            with base.time_limit(300):
+                compare(ctx, dict(case), stats, rng, 6, with_lte=d.get("lte", False),
+                        with_kappa="kappa_vws" in d, vws=vws, kappa_vws=d.get("kappa_vws"),
+                        directed=True)
+        except TimeoutError as ex:
+            ctx.fail_input("comparison of the two solvers: %s [%s]" % (ex, json.dumps(case)),
+                           dict(case=case, quantity="timeout"), key="timeout")
         except Exception:
             ctx.log("harness exception", json.dumps(case), traceback.format_exc())
             ctx.broken.append("harness: compare raised")
     for m in range(nsets):
         case = gen_params(rng)
         try:
-            compare(ctx, case, stats, rng, ctx.n(8, 14), with_lte=True, with_kappa=True)
+            with base.time_limit(300):
+                compare(ctx, case, stats, rng, ctx.n(8, 14), with_lte=True, with_kappa=True)
+        except TimeoutError as ex:
+            ctx.fail_input("comparison of the two solvers: %s [%s]" % (ex, json.dumps(case)),
+                           dict(case=case, quantity="timeout"), key="timeout")
         except Exception:
             ctx.log("harness exception", json.dumps(case), traceback.format_exc())
             ctx.broken.append("harness: compare raised")
